@@ -762,11 +762,26 @@ func run(c *harness.Case) {
 		lateIdx = r.Intn(nTypes)
 	}
 	faulty := r.Intn(10) != 0 // one case in ten has no faults at all
+	// blackout: every type loses its watch right after the first sync and then sees a run of List
+	// errors with a 1ns retry timeout, so that all caches report WaitForDatastore at the same time.
+	blackout := faulty && r.Intn(3) == 0
+	stopInBlackout := blackout && r.Intn(2) == 0
 	var planDesc []string
 	for i := 0; i < nTypes; i++ {
 		k := kinds[perm[i]]
 		t := &typeState{idx: i, kind: k.kind, ns: k.ns, hasProc: r.Intn(3) != 0, sendDeletes: r.Intn(2) == 0,
 			late: i == lateIdx, objs: map[string]obj{}, told: map[string]bool{}}
+		if blackout {
+			t.listOut = append(t.listOut, lOK)
+			nerr := 3 + r.Intn(6)
+			if stopInBlackout {
+				nerr = 60
+			}
+			for j := 0; j < nerr; j++ {
+				t.listOut = append(t.listOut, lGeneric)
+			}
+			t.streams = append(t.streams, streamPlan{n: r.Intn(2), end: sErrExpired})
+		}
 		if faulty {
 			// list faults
 			for j, n := 0, r.Intn(5); j < n; j++ {
@@ -839,7 +854,7 @@ func run(c *harness.Case) {
 		muts[i] = m
 	}
 	retryTimeout := time.Hour
-	if r.Intn(2) == 0 {
+	if blackout || r.Intn(2) == 0 {
 		retryTimeout = time.Nanosecond
 	}
 
@@ -878,43 +893,6 @@ func run(c *harness.Case) {
 		f.mu.Unlock()
 	}
 	defer stopAll()
-
-	for _, m := range muts {
-		t := f.types[m.t]
-		if m.del {
-			f.del(t, m.name)
-		} else {
-			f.set(t, m.name, m.val)
-		}
-		if m.sleep > 0 {
-			time.Sleep(m.sleep)
-		}
-	}
-	f.mu.Lock()
-	f.quiesce = true
-	f.cond.Broadcast()
-	// wait until every type is settled (logical condition; watchdog -> inconclusive)
-	expired := false
-	timer := time.AfterFunc(40*time.Second, func() {
-		f.mu.Lock()
-		expired = true
-		f.cond.Broadcast()
-		f.mu.Unlock()
-	})
-	allSettled := func() bool {
-		for _, t := range f.types {
-			if !t.settled {
-				return false
-			}
-		}
-		return true
-	}
-	for !allSettled() && !expired {
-		f.cond.Wait()
-	}
-	settled := allSettled()
-	f.mu.Unlock()
-	timer.Stop()
 
 	report := func() map[string]any {
 		f.mu.Lock()
@@ -986,6 +964,70 @@ func run(c *harness.Case) {
 		c.Count("conversions", conv)
 		c.Count("mutations_applied", int64(len(muts)))
 	}
+
+	for _, m := range muts {
+		t := f.types[m.t]
+		if m.del {
+			f.del(t, m.name)
+		} else {
+			f.set(t, m.name, m.val)
+		}
+		if m.sleep > 0 {
+			time.Sleep(m.sleep)
+		}
+	}
+	if stopInBlackout {
+		// Pacing only: give the blackout a bounded time to show up at the recorder, then stop the
+		// syncer in the middle of it.  Only the status clauses are judged in this variant.
+		recd.mu.Lock()
+		exp := false
+		tm := time.AfterFunc(30*time.Millisecond, func() {
+			recd.mu.Lock()
+			exp = true
+			recd.cond.Broadcast()
+			recd.mu.Unlock()
+		})
+		for !(recd.haveStatus && recd.lastStatus == api.WaitForDatastore && recd.nWFD > 0) && !exp {
+			recd.cond.Wait()
+		}
+		inBlackout := !exp
+		recd.mu.Unlock()
+		tm.Stop()
+		if inBlackout {
+			c.Count("stopped_in_blackout", 1)
+			stopAll()
+			flush()
+			counters()
+			c.NonTrivial(planDesc, nMut, "stop-in-blackout")
+			return
+		}
+	}
+	f.mu.Lock()
+	f.quiesce = true
+	f.cond.Broadcast()
+	// wait until every type is settled (logical condition; watchdog -> inconclusive)
+	expired := false
+	timer := time.AfterFunc(40*time.Second, func() {
+		f.mu.Lock()
+		expired = true
+		f.cond.Broadcast()
+		f.mu.Unlock()
+	})
+	allSettled := func() bool {
+		for _, t := range f.types {
+			if !t.settled {
+				return false
+			}
+		}
+		return true
+	}
+	for !allSettled() && !expired {
+		f.cond.Wait()
+	}
+	settled := allSettled()
+	f.mu.Unlock()
+	timer.Stop()
+
 	if !settled {
 		flush()
 		counters()
